@@ -19,7 +19,7 @@ NA = {
 }
 
 PENDING = {
-    'C07': 'filestore', 'C10': 'ports_conc', 'C11': 'lifecycle', 'C13': 'playback',
+    'C07': 'filestore', 'C11': 'lifecycle', 'C13': 'playback',
     'C16': 'history', 'C17': 'charset', 'C18': 'netsim',
 }
 
@@ -36,6 +36,10 @@ CHECKS = {
                 technique='deterministic simulation: damaged prefix (crashed source, noise, hot-plug, open sysex, faulted wire) then healthy sender, real-time source inserting inside sysex; random chunking',
                 text='Each run parses P and P+enc(M1..Mn) with fresh real parsers under independent random chunking and requires parse(P+enc(M..)) == parse(P)+[M..], with defined real-time bytes inserted at chosen positions strictly inside sysex encodings delivered ahead of the unchanged sysex. P comes from 7 damage classes incl. the faulted world wire of C04; M covers all 18 types (prefix-class x type and prefix-end-state x type tables fully hit).',
                 note='Only defined real-time bytes are inserted into sysex (the statement speaks of real-time messages). Message.bytes() of the tree under test is the transmitter.'),
+    'C10': dict(engine='ports_conc', category='exploration', design='3 / C10',
+                technique='deterministic thread simulation: real threads under a seeded baton-passing scheduler (random walk, PCT, round-robin) with settrace line-level pre-emption, simulated RLock/Queue/sleep; history oracle (exactly-once, per-sender FIFO, real-time order, copy, wire integrity, liveness)',
+                text='Small programs of 1-3 sender and 1-3 receiver threads (send / receive / poll / iter_pending / iteration) run on the real port classes - a lock-protected custom device port (both _receive styles, byte-wise _send onto a wire double), EchoPort, the IOPort wrapper over two device doubles, MultiPort (with and without yield_ports, receivers also reading sub-ports directly) and a ParserQueue-backed rtmidi-shaped port - under a scheduler that decides every interleaving at statement granularity in mido/ports.py, parser.py, tokenizer.py and _parser_queue.py. After each run the recorded history is checked: no call raised, no deadlock, the wire image is a concatenation of whole encodings, every sent message received exactly once (x fan-out) and intact, per sender in order and in real-time order across receivers (unique values, so the FIFO linearizability condition is exact and cheap), nothing received before sent, received object is an unmodified copy although the sender mutates its object afterwards, and no receiver stays blocked while a message is deliverable on its port. Every violation is replayed from its recorded decision list in a fresh process before it is reported.',
+                note='Pre-emption granularity is one source line of the files under test; deque.append/popleft assumed atomic (CPython). threading.RLock, queue.Queue, time.sleep and random.shuffle are simulator stubs; C-library backends are not run.'),
 }
 
 
